@@ -88,7 +88,7 @@ def run(prop_id, tier, seed, replay=None):
             records = flat = [r for r in flat if r['i'] in only]
     log(f'[{prop_id}] driven {len(flat)} records {time.time() - t0:.1f}s')
 
-    vkw = dict(timeout=getattr(mod, 'V_TIMEOUT', 1500))
+    vkw = dict(timeout=getattr(mod, 'V_TIMEOUT', 1500), env=getattr(mod, 'V_ENV', None))
     bad, vstates, vtrans = vlib.validate(mod.TRACE_MODULE, records, os.path.join(work, 'v'), **vkw)
 
     # canaries: corrupted copies of records that PASSED; the same validator must reject each of them
